@@ -708,17 +708,26 @@ func voxelRange(blockSize, begBlock, endBlock, begVoxel, endVoxel int32) (int32,
 	return v0, v1
 }
 
+// blockOf returns the coordinate of the block that contains voxel coordinate v, by floor
+// division so that negative coordinates are handled.
+func blockOf(v, blockSize int32) int32 {
+	if v < 0 {
+		return (v - blockSize + 1) / blockSize
+	}
+	return v / blockSize
+}
+
 // GetMask returns a binary volume of subvol size where each element is 1 if inside the ROI
 // and 0 if outside the ROI.
 func (d *Data) GetMask(ctx *datastore.VersionedCtx, subvol *dvid.Subvolume) ([]byte, error) {
 	pt0 := subvol.StartPoint()
 	pt1 := subvol.EndPoint()
-	minBlockZ := pt0.Value(2) / d.BlockSize[2]
-	maxBlockZ := pt1.Value(2) / d.BlockSize[2]
-	minBlockY := pt0.Value(1) / d.BlockSize[1]
-	maxBlockY := pt1.Value(1) / d.BlockSize[1]
-	minBlockX := pt0.Value(0) / d.BlockSize[0]
-	maxBlockX := pt1.Value(0) / d.BlockSize[0]
+	minBlockZ := blockOf(pt0.Value(2), d.BlockSize[2])
+	maxBlockZ := blockOf(pt1.Value(2), d.BlockSize[2])
+	minBlockY := blockOf(pt0.Value(1), d.BlockSize[1])
+	maxBlockY := blockOf(pt1.Value(1), d.BlockSize[1])
+	minBlockX := blockOf(pt0.Value(0), d.BlockSize[0])
+	maxBlockX := blockOf(pt1.Value(0), d.BlockSize[0])
 
 	minIndex := minIndexByBlockZ(minBlockZ)
 	maxIndex := maxIndexByBlockZ(maxBlockZ)
